@@ -84,6 +84,7 @@ type Op struct {
 	AsIs      bool         `json:"asis,omitempty"`  // restart: as-is genesis round trip instead of the zero-height restart
 	Denom     string       `json:"denom,omitempty"` // rate
 	Rate      string       `json:"rate,omitempty"`
+	Upper     bool         `json:"upper,omitempty"` // the acting account writes its own address in upper case (respond, context control, withdraw, set-withdraw-address)
 }
 
 const (
@@ -374,6 +375,14 @@ func (m *machine) Apply(op Op) error {
 	}
 	if swDebug {
 		fmt.Printf("op %d h=%d %+v\n", m.nOps, m.s.C.Height(), op)
+	}
+	m.s.Upper = op.Upper
+	defer func() { m.s.Upper = false }()
+	if op.Upper {
+		switch op.Kind {
+		case "respond", "ctl", "updctx", "withdraw", "setwd":
+			m.cl["own-address-in-upper-case"]++
+		}
 	}
 	var err error
 	switch op.Kind {
